@@ -250,8 +250,45 @@ func runC13(tier string) int {
 			}
 		}
 	}
+	// the size dimension: chains of K constants (each defined from the previous one) and K independent constants,
+	// for every K up to a bound; used as command arguments, comparison values and case values
+	maxK := 60
+	if tier == "thorough" {
+		maxK = 300
+	}
+	longDone := r.Parallel(uint64(maxK)*2, func(w int, idx uint64) {
+		k := int(idx/2) + 2
+		var head, with, without strings.Builder
+		with.WriteString("script S {\n")
+		without.WriteString("script S {\n")
+		if idx%2 == 0 {
+			// chain: C0 = 7, Ci = C(i-1) + i
+			exp := "7"
+			head.WriteString("const C0 = 7\n")
+			for i := 1; i < k; i++ {
+				fmt.Fprintf(&head, "const C%d = C%d + %d\n", i, i-1, i)
+				exp += fmt.Sprintf(" + %d", i)
+			}
+			fmt.Fprintf(&with, "\tcmd(C%d, x)\n\tif (var(V) == C%d) {\n\t\ta\n\t}\n\tswitch (var(W)) {\n\t\tcase C%d:\n\t\t\tb\n\t}\n", k-1, k-1, k-1)
+			fmt.Fprintf(&without, "\tcmd(%s, x)\n\tif (var(V) == %s) {\n\t\ta\n\t}\n\tswitch (var(W)) {\n\t\tcase %s:\n\t\t\tb\n\t}\n", exp, exp, exp)
+		} else {
+			for i := 0; i < k; i++ {
+				fmt.Fprintf(&head, "const N%d = VAL_%d\n", i, i)
+				fmt.Fprintf(&with, "\tcmd%d(N%d, N%d)\n", i, i, (i*7+3)%k)
+				fmt.Fprintf(&without, "\tcmd%d(VAL_%d, VAL_%d)\n", i, i, (i*7+3)%k)
+			}
+		}
+		with.WriteString("}\n")
+		without.WriteString("}\n")
+		r.Add("long_definition_lists", 1)
+		eval(fmt.Sprintf("long%d size=%d", idx%2, k), head.String()+with.String(), strings.Repeat("\n", k)+without.String(), true)
+	})
+	if !longDone {
+		r.NotExhaustive("long definition lists not completed")
+	}
+	r.Set("long_max_constants", maxK)
 	r.Assume("values with parentheses are only used at sites where nested parentheses can be written out literally (command arguments, value(...))",
 		"const lines are replaced by blank lines so that line markers stay comparable")
 	return r.Finish(r.Get("evaluations"), r.Get("nontrivial"),
-		"15 definition sets (single token, multi-token, parenthesised, const from const two levels deep, hex, negative, multi-byte value; constant names with a non-ASCII first letter, a non-ASCII letter inside, a leading underscore, lower case with digits) x every single use site, every pair and triple (thorough: quadruple) and all 26 documented use sites (five of them inside a larger expression) at once (command argument incl. nested, flag/var/defeated operands, comparison values incl. value(), switch operand and case value, AutoVar argument and comparison, goto target, map-script table var/value and inline body, mart item) + 8 non-positions (command name, movement step, label, moves() step, text content, script/text/mapscripts names, raw) + use before definition + redefinition; outputs compared byte for byte with line markers on, optimize on/off; non-trivial = multi-token or chained definition")
+		"15 definition sets (single token, multi-token, parenthesised, const from const two levels deep, hex, negative, multi-byte value; constant names with a non-ASCII first letter, a non-ASCII letter inside, a leading underscore, lower case with digits) x every single use site, every pair and triple (thorough: quadruple) and all 26 documented use sites (five of them inside a larger expression) at once (command argument incl. nested, flag/var/defeated operands, comparison values incl. value(), switch operand and case value, AutoVar argument and comparison, goto target, map-script table var/value and inline body, mart item) + 8 non-positions (command name, movement step, label, moves() step, text content, script/text/mapscripts names, raw) + use before definition + redefinition + chains of K constants and K independent constants for every K up to the bound in the coverage; outputs compared byte for byte with line markers on, optimize on/off; non-trivial = multi-token or chained definition")
 }
